@@ -87,9 +87,9 @@ Theorem ListArray_getitem_next_at_width tT tC tocarry starts stops lenstarts at0
   = ListArray_getitem_next_at TIdeal TIdeal tocarry starts stops lenstarts at0.
 Proof.
   intros H1 H2 Hf. unfold ListArray_getitem_next_at. apply kfill_ext. intros i Hi.
-  rewrite (kget_at starts), (kget_at stops) by lia. cbn [kbind wrap].
+  rewrite (kget_at starts), (kget_at stops) by lia. cbn [kbind wrap]. cbv zeta.
   destruct (Hf i Hi) as (F1 & F2). rewrite F1.
-  destruct (kcheck _ MIndexOutOfRange); cbn [kbind]; auto. now rewrite F2.
+  destruct (kcheck _ MIndexOutOfRange); cbn [kbind]; auto. unfold fits in F1. rewrite ?F1. now rewrite F2.
 Qed.
 
 Theorem RegularArray_broadcast_tooffsets_width tT fromoffsets offsetslength size :
@@ -99,7 +99,7 @@ Theorem RegularArray_broadcast_tooffsets_width tT fromoffsets offsetslength size
   = RegularArray_broadcast_tooffsets TIdeal fromoffsets offsetslength size.
 Proof.
   intros H Hf. unfold RegularArray_broadcast_tooffsets, kchecks. apply kfor_ext. intros i [] Hi.
-  rewrite (kget_at fromoffsets (i + 1)), (kget_at fromoffsets i) by lia. cbn [kbind wrap]. now rewrite (Hf i) by lia.
+  rewrite (kget_at fromoffsets (i + 1)), (kget_at fromoffsets i) by lia. cbn [kbind wrap]. cbv zeta. rewrite !(Hf i) by lia. reflexivity.
 Qed.
 
 Theorem ListArray_compact_offsets_width tT tC tooffsets starts stops length :
@@ -135,4 +135,74 @@ Proof.
   unfold kfor. destruct (Z_le_gt_dec length 0).
   - replace (Z.to_nat (length - 0)) with O by lia. reflexivity.
   - apply G; try lia. rewrite A0 by lia. reflexivity.
+Qed.
+
+(* ---- kernels of Proofs_C13c.v / Proofs_C13d.v whose wrapped values depend on the inputs only *)
+Theorem ListArray_getitem_carry_width tC tostarts tostops starts stops fromcarry lenstarts lencarry :
+  lencarry <= zlen fromcarry -> lenstarts <= zlen starts -> lenstarts <= zlen stops ->
+  (forall i, 0 <= i < lencarry -> 0 <= at_ fromcarry i) ->
+  (forall c, 0 <= c < lenstarts -> fits tC (at_ starts c) /\ fits tC (at_ stops c)) ->
+  ListArray_getitem_carry tC tostarts tostops starts stops fromcarry lenstarts lencarry
+  = ListArray_getitem_carry TIdeal tostarts tostops starts stops fromcarry lenstarts lencarry.
+Proof.
+  intros H1 H2 H3 Hc Hf. unfold ListArray_getitem_carry. apply kfor_ext. intros j [ts tp] Hj.
+  rewrite (kget_at fromcarry) by lia. cbn [kbind]. specialize (Hc j Hj).
+  destruct (lenstarts <=? at_ fromcarry j) eqn:E; cbn [kcheck kbind]; auto.
+  rewrite (kget_at starts), (kget_at stops) by lia. cbn [kbind wrap].
+  destruct (Hf (at_ fromcarry j) ltac:(lia)) as (F1 & F2). now rewrite F1, F2.
+Qed.
+
+Theorem ListArray_min_range_width tC tomin starts stops lenstarts :
+  1 <= zlen starts -> 1 <= zlen stops -> lenstarts <= zlen starts -> lenstarts <= zlen stops ->
+  (forall i, 0 <= i < Z.max 1 lenstarts -> fits tC (at_ stops i - at_ starts i)) ->
+  ListArray_min_range tC tomin starts stops lenstarts = ListArray_min_range TIdeal tomin starts stops lenstarts.
+Proof.
+  intros H0 H0' H1 H2 Hf. unfold ListArray_min_range.
+  rewrite (kget_at starts 0), (kget_at stops 0) by lia. cbn [kbind wrap]. rewrite (Hf 0) by lia.
+  f_equal. apply kfor_ext. intros i s Hi. rewrite (kget_at starts), (kget_at stops) by lia. cbn [kbind wrap]. cbv zeta.
+  rewrite !(Hf i) by lia. reflexivity.
+Qed.
+
+Theorem ListArray_rpad_and_clip_length_axis1_width tC tomin starts stops target lenstarts :
+  lenstarts <= zlen starts -> lenstarts <= zlen stops ->
+  (forall i, 0 <= i < lenstarts -> fits tC (at_ stops i - at_ starts i)) ->
+  ListArray_rpad_and_clip_length_axis1 tC tomin starts stops target lenstarts
+  = ListArray_rpad_and_clip_length_axis1 TIdeal tomin starts stops target lenstarts.
+Proof.
+  intros H1 H2 Hf. unfold ListArray_rpad_and_clip_length_axis1.
+  f_equal. apply kfor_ext. intros i s Hi. rewrite (kget_at starts), (kget_at stops) by lia. cbn [kbind wrap]. cbv zeta.
+  rewrite !(Hf i) by lia. reflexivity.
+Qed.
+
+Theorem ListArray_getitem_next_range_spreadadvanced_width tC toadvanced fromadvanced fromoffsets lenstarts :
+  lenstarts + 1 <= zlen fromoffsets ->
+  (forall i, 0 <= i < lenstarts -> fits tC (at_ fromoffsets (i + 1) - at_ fromoffsets i)) ->
+  ListArray_getitem_next_range_spreadadvanced tC toadvanced fromadvanced fromoffsets lenstarts
+  = ListArray_getitem_next_range_spreadadvanced TIdeal toadvanced fromadvanced fromoffsets lenstarts.
+Proof.
+  intros H1 Hf. unfold ListArray_getitem_next_range_spreadadvanced. apply kfor_ext. intros i s Hi.
+  rewrite (kget_at fromoffsets (i + 1)), (kget_at fromoffsets i) by lia. cbn [kbind wrap]. cbv zeta.
+  rewrite !(Hf i) by lia. reflexivity.
+Qed.
+
+Theorem ListArray_getitem_next_range_carrylength_width tC carrylength starts stops lenstarts start stop step :
+  lenstarts <= zlen starts -> lenstarts <= zlen stops ->
+  (forall i, 0 <= i < lenstarts -> fits tC (at_ stops i - at_ starts i)) ->
+  ListArray_getitem_next_range_carrylength tC carrylength starts stops lenstarts start stop step
+  = ListArray_getitem_next_range_carrylength TIdeal carrylength starts stops lenstarts start stop step.
+Proof.
+  intros H1 H2 Hf. unfold ListArray_getitem_next_range_carrylength.
+  destruct (kupd carrylength 0 0); cbn [kbind]; auto. apply kfor_ext. intros i s Hi.
+  rewrite (kget_at starts), (kget_at stops) by lia. cbn [kbind wrap]. cbv zeta. rewrite !(Hf i) by lia. reflexivity.
+Qed.
+
+Theorem RegularArray_broadcast_tooffsets_size1_width tT tocarry fromoffsets offsetslength :
+  offsetslength <= zlen fromoffsets ->
+  (forall i, 0 <= i < offsetslength - 1 -> fits tT (at_ fromoffsets (i + 1) - at_ fromoffsets i) /\ fits tT i) ->
+  RegularArray_broadcast_tooffsets_size1 tT tocarry fromoffsets offsetslength
+  = RegularArray_broadcast_tooffsets_size1 TIdeal tocarry fromoffsets offsetslength.
+Proof.
+  intros H1 Hf. unfold RegularArray_broadcast_tooffsets_size1. f_equal. apply kfor_ext. intros i s Hi.
+  rewrite (kget_at fromoffsets (i + 1)), (kget_at fromoffsets i) by lia. cbn [kbind wrap]. cbv zeta.
+  destruct (Hf i Hi) as (F1 & F2). unfold fits in F1, F2. rewrite !F1, ?F2. reflexivity.
 Qed.
